@@ -1,0 +1,61 @@
+//go:build verif
+// +build verif
+
+package store
+
+// Verification hooks (build tag "verif"): schedule/notification points and
+// export shims for the out-of-tree harness in /verif.  Add-only; nothing here
+// is compiled into a normal build.
+
+import (
+	"bytes"
+)
+
+// VerifHook, when set, is called at every verifPoint.
+var VerifHook func(point string, args ...interface{})
+
+func verifPoint(point string, args ...interface{}) {
+	if h := VerifHook; h != nil {
+		h(point, args...)
+	}
+}
+
+// ---- pure kernels ----
+
+func VerifFnv1a(b []byte) uint32          { return fnv1a(b) }
+func VerifMurmur(b []byte) uint32         { return murmur(b) }
+func VerifKeyHash(b []byte) uint64        { return getKeyHashDefalut(b) }
+func VerifCurrentKeyHash(b []byte) uint64 { return getKeyHash(b) }
+
+// VerifCRC feeds the parts to the record CRC the way getCRC does (empty parts skipped).
+func VerifCRC(parts ...[]byte) uint32 {
+	h := newCrc32()
+	for _, p := range parts {
+		if len(p) > 0 {
+			h.write(p)
+		}
+	}
+	return h.get()
+}
+
+// VerifSetKeyHash installs a key-hash override (nil restores the default).
+func VerifSetKeyHash(f HashFuncType) {
+	if f == nil {
+		getKeyHash = getKeyHashDefalut
+	} else {
+		getKeyHash = f
+	}
+}
+
+// VerifEncodeRecord returns the on-disk image of one record (header, key, body, padding).
+func VerifEncodeRecord(key, body []byte, flag uint32, ver int32, ts uint32) []byte {
+	p := &Payload{}
+	p.Flag = flag
+	p.Ver = ver
+	p.TS = ts
+	p.Body = body
+	rec := &Record{key, p}
+	var buf bytes.Buffer
+	wrapRecord(rec).append(&buf, true)
+	return buf.Bytes()
+}
